@@ -53,7 +53,7 @@ func unlockKey(pk types.PublicKey) types.UnlockKey {
 // lockHeight/lockTime: a height / time that has already passed (locks are
 // generated satisfied-or-soon-satisfied by the caller's choice).
 func (w *Wallet) NewRecipe(v2ok bool, curHeight uint64, curTime time.Time) *Recipe {
-	kinds := []string{"uc1", "uc1", "uc2of3", "uclock"}
+	kinds := []string{"uc1", "uc1", "uc2of3", "uclock", "uc0"}
 	if v2ok {
 		kinds = append(kinds, "pk", "pk", "thresh", "above", "after", "hash")
 	}
@@ -76,6 +76,11 @@ func (w *Wallet) NewRecipeKind(kind string, curHeight uint64, curTime time.Time)
 		r.UC = &uc
 		r.Keys = []types.PrivateKey{k}
 		r.UCKeyIdx = []uint64{0}
+		r.MinHeight = uc.Timelock
+	case "uc0":
+		// anyone can spend: no keys, zero signatures required (distinct addresses via an already-passed timelock)
+		uc := types.UnlockConditions{Timelock: uint64(w.rng.Intn(int(curHeight) + 1))}
+		r.UC = &uc
 		r.MinHeight = uc.Timelock
 	case "uc2of3":
 		ks := []types.PrivateKey{w.key(), w.key(), w.key()}
